@@ -1,7 +1,7 @@
 import TypstyleModel.Model.Comment
 /-! `pretty/layout/flow.rs` and `convert_flow_like_iter` (code_flow.rs:289). -/
 namespace Typstyle
-open Pretty
+open Twin
 
 structure FlowItem where
   doc : Doc
@@ -44,7 +44,7 @@ def flowStepM {σ : Type} (e : Env) (ctx : Ctx) (producer : σ → Ctx → ANode
   if k.isKeyword && !(k == .none_ || k == .auto_) then
     pure { acc with flow := acc.flow.push (e.tok child.text) true true, peekLC := false, peekHash := false }
   else if isCommentKind k then
-    pure { acc with flow := acc.flow.pushComment (← convComment e child) (k == .blockComment), peekLC := k == .lineComment, peekHash := false }
+    pure { acc with flow := acc.flow.pushComment (← convCommentT e child) (k == .blockComment), peekLC := k == .lineComment, peekHash := false }
   else if atLC && k == .space && hasLinebreak child.text then
     pure { acc with flow := { (acc.flow.push hardline false false) with atLineStart := true }, peekLC := false, peekHash := false }
   else if k == .hash then
